@@ -11,7 +11,9 @@ LEVEL_TEXT = ("Generated programs of 1-6 producer threads (post, timers with pas
               "set_io_event / cancel_io_events on socket pairs whose readiness other operations create, deadline_timer and stream_socket "
               "operations carried onto the loop thread, throwing handlers, stop racing with posts) run against one io_service per "
               "reactor {select, poll, epoll} over 1-3 epochs (drain, stop from another thread while the loop sleeps / from a handler, run() returns, "
-              "reset(), run() again on the same or a new thread, then one cross-thread operation at a time while the loop sleeps); every handler must be invoked exactly once on the loop thread, with success only if its event "
+              "reset(), run() again on the same or a new thread, then one cross-thread operation at a time while the loop sleeps); descriptors with an armed wait are closed (stream_socket::close or "
+              "cancel_io_events + ::close) by another thread while the loop sleeps or by a handler, a new socket pair re-uses the number and must get its "
+              "events; every handler must be invoked exactly once on the loop thread, with success only if its event "
               "happened (timers: not before the deadline) and with canceled only if a cancel call had not returned before it was armed (descriptor operations take "
               "effect in call order; a cancel must deliver every handler registered before it). Pool programs: at most once, "
               "exactly once unless cancel() returned true, throwing jobs keep the workers alive.")
@@ -20,7 +22,8 @@ LEVEL_NOTE = ("Thread schedules are sampled by the OS scheduler with generated n
               "threads waiting), for the pool only by a watchdog (inconclusive).")
 DESIGN_REF = "3/C17"
 RULE = ("case = (reactor, final mode drain|stop-race, socket pairs, per-producer operation lists, epochs with stop mode / restart mode / probe "
-        "order). Non-trivial: more than one epoch (stop, reset, run again), or the program contains a cancel "
+        "order, close-and-reuse scenarios). Non-trivial: more than one epoch (stop, reset, run again), a descriptor closed with an armed wait and its "
+        "number re-used, or the program contains a cancel "
         "(timer, descriptor, deadline_timer, stream) or two producers touch the same descriptor or stop races with the producers; pool: more "
         "than one poster, a cancel, a throwing job or stop-race. Distinct = hash of the encoded case. Classes loop.* / pool.* count what "
         "actually happened at run time (fired / canceled / fired despite cancel / cancel after fire / armed during or after a cancel call / "
@@ -64,6 +67,8 @@ def units(bins, tier, seed):
     if include_known():    # all reactors x {re-arm after cancel, cancel after queued arm, number re-used via dup2, via close + socketpair}
         # + restart grid: reactor x {stop from another thread while the loop sleeps, stop from a handler} x {same thread, new thread runs again}
         #   x first operation after reset() {post, timer, timer+cancel, io+ready, io+cancel, stop}  (72 two-epoch cases of the loop property)
+        # + close grid: reactor x {closed by another thread while the loop sleeps, by a handler with operations queued (issued before run() /
+        #   inside a running loop), by a handler} x closed wait {in, out} x new wait {in, out, both} x {cancel_io_events + ::close, stream_socket::close}
         us.append(Unit("c17_sched_asan.fixed", [bins["c17_sched_asan"]], env={"C17_MODE": "fixed"}, group="fixed", timeout=1800))
     return us
 
@@ -72,7 +77,7 @@ def floor(tier):
     b = budget(tier)
     f = {"loop-asan": b["la"] * b["sh"], "pool-tsan": b["pt"] * b["sh"], "pool-asan": b["pa"] * b["sh"]}
     if include_known():
-        f["fixed"] = 12 + 72
+        f["fixed"] = 12 + 144 + 72
     for rn in REACTORS.values():
         f["loop-tsan-" + rn] = b["lt"] * b["sh"]
     return f
@@ -93,6 +98,10 @@ def replay(path):
 IOS = "booster/lib/aio/src/io_service.cpp"
 TP = "src/thread_pool.cpp"
 MUTATIONS = [
+    # epoll reactor: the per-descriptor cache is not updated when epoll_ctl fails - EPOLL_CTL_DEL of a descriptor that was closed before its
+    # queued cancel ran leaves "registered" behind, the next socket with that number is never added (same class as seeded/C17-3)
+    dict(name="epoll-cache-stale-after-failed-del", edits=[("booster/lib/aio/src/reactor.cpp",
+         "write_flag(fd,EPOLL_CTL_MOD,to_poll_events(flags),error);\n\t\t\tevents_[fd]=flags;", "write_flag(fd,EPOLL_CTL_MOD,to_poll_events(flags),error);\n\t\t\tif(!error) events_[fd]=flags;")]),
     # wake-ups are coalesced with a flag that io_service::reset() forgets to clear: after stop() from another thread + reset() + run()
     # no cross-thread operation wakes the sleeping loop any more (same class as seeded/C17-2, placed in io_service instead of the interrupter)
     dict(name="wake-coalescing-flag-survives-reset", edits=[
